@@ -205,27 +205,40 @@ fn run_encoder(strategy: VarIntStrategy, c: &VC) -> R {
         VC::UU(a, b) => pair!(*a, *b, encode_u64, decode_u64, "u64_concat"),
         VC::II(a, b) => pair!(*a, *b, encode_i64, decode_i64, "i64_concat"),
         VC::US(s) => {
-            let enc = match e.encode_u64_sequence(s) {
-                Ok(b) => b,
-                Err(_) => return Ok(Outcome::skip("encode refused (strategy does not offer this input kind)")),
-            };
             let class = seq_class(strategy, s, None);
-            let d = e.decode_u64_sequence(&enc).map_err(|err| bad("u64_seq", format!("decode_err/{class}"), format!("{err}; input {:?}", s)))?;
-            ensure!(&d == s, "u64_seq", format!("wrong_value/{class}"), "decode(encode({:?})) = {:?}; bytes {}", s, d, brief(&enc));
-            Ok(if s.is_empty() { Outcome::trivial("u64_seq/empty") } else { Outcome::pass(&format!("u64_seq/{class}")) })
+            seq_roundtrip(&class, s, || e.encode_u64_sequence(s), |b| e.decode_u64_sequence(b), "u64")
         }
         VC::IS(s) => {
-            let enc = match e.encode_i64_sequence(s) {
-                Ok(b) => b,
-                Err(_) => return Ok(Outcome::skip("encode refused (strategy does not offer this input kind)")),
-            };
             let as_u: Vec<u64> = s.iter().map(|&v| v as u64).collect();
             let class = seq_class(strategy, &as_u, Some(s));
-            let d = e.decode_i64_sequence(&enc).map_err(|err| bad("i64_seq", format!("decode_err/{class}"), format!("{err}; input {:?}", s)))?;
-            ensure!(&d == s, "i64_seq", format!("wrong_value/{class}"), "decode(encode({:?})) = {:?}; bytes {}", s, d, brief(&enc));
-            Ok(if s.is_empty() { Outcome::trivial("i64_seq/empty") } else { Outcome::pass(&format!("i64_seq/{class}")) })
+            seq_roundtrip(&class, s, || e.encode_i64_sequence(s), |b| e.decode_i64_sequence(b), "i64")
         }
     }
+}
+
+/// Sequence round trip.  Clause `seq_roundtrip`; class = `<symptom>/<input feature>` where the symptom is
+/// `encode_panic` or `roundtrip_failed` (decode Err, decode panic or different values: all "the bytes the
+/// encoder produced do not decode to the input") and the feature is `seq_class`.
+fn seq_roundtrip<T: PartialEq + std::fmt::Debug + Clone>(
+    class: &str,
+    s: &[T],
+    enc: impl FnOnce() -> zipora::Result<Vec<u8>>,
+    dec: impl FnOnce(&[u8]) -> zipora::Result<Vec<T>>,
+    kind: &str,
+) -> R {
+    let enc = match zverif::util::catch(enc) {
+        Ok(Ok(b)) => b,
+        Ok(Err(_)) => return Ok(Outcome::skip("encode refused (strategy does not offer this input kind)")),
+        Err(p) => return Err(bad("seq_roundtrip", format!("encode_panic/{class}"), format!("{kind} sequence {:?}: {}", s, p.detail))),
+    };
+    match zverif::util::catch(|| dec(&enc)) {
+        Ok(Ok(d)) => {
+            ensure!(d == s, "seq_roundtrip", format!("roundtrip_failed/{class}"), "{kind}: decode(encode({:?})) = {:?}; bytes {}", s, d, brief(&enc));
+        }
+        Ok(Err(err)) => return Err(bad("seq_roundtrip", format!("roundtrip_failed/{class}"), format!("{kind}: decode of its own bytes {} failed: {err}; input {:?}", brief(&enc), s))),
+        Err(p) => return Err(bad("seq_roundtrip", format!("roundtrip_failed/{class}"), format!("{kind}: decode of its own bytes {} panicked: {}; input {:?}", brief(&enc), p.detail, s))),
+    }
+    Ok(if s.is_empty() { Outcome::trivial(&format!("{kind}_seq/empty")) } else { Outcome::pass(&format!("{kind}_seq/{class}")) })
 }
 
 // ---------------------------------------------------------------------------------------------
